@@ -100,7 +100,7 @@ impl Val {
     }
     pub fn short(&self) -> String {
         let s = format!("{:?}", self);
-        if s.len() > 160 { format!("{}…({} chars)", &s[..s.char_indices().nth(150).map(|x| x.0).unwrap_or(150.min(s.len()))], s.len()) } else { s }
+        if s.chars().count() > 160 { format!("{}…({} chars)", s.chars().take(150).collect::<String>(), s.chars().count()) } else { s }
     }
 }
 
